@@ -27,7 +27,8 @@ MANIFEST = {
 
 REQUIRED = ["KV.C17.sem_accounting", "KV.C17.never_over_cap", "KV.C17.fifo_exactly_once",
             "KV.C17.per_pair_order", "KV.C17.no_deadlock", "KV.C17.terminates", "KV.C17.maximal_run_delivers",
-            "KV.C17.pool_exactly_once", "KV.C17.chain_ring", "KV.C17.pcqueue_refines_fifo"]
+            "KV.C17.pool_exactly_once", "KV.C17.chain_ring", "KV.C17.pcqueue_refines_fifo",
+            "KV.C17.wait_eintr_transparent", "KV.C17.stream_records"]
 
 HARNESS_EXTRA = [REPO + "/util/" + f for f in (
     "exception.cc", "integer_to_string.cc", "stream/chain.cc", "stream/multi_progress.cc", "stream/io.cc", "file.cc",
@@ -454,6 +455,48 @@ def schain_batch(ctx, hexe, dexe, cases):
     return False
 
 
+KEY_SMAIN = "stream-init-in-caller-thread-first-block_count-blocks-empty"
+
+
+def smain_batch(ctx, hexe, n):
+    """Stream attached in the calling thread (`chain >> stream >> kRecycle`).  The generator stays away from the
+    known finding (first block_count blocks all empty), which is demonstrated by two fixed cases under its key."""
+    rng = ctx.rng
+
+    def all_empty_prefix(b, blocks):
+        return len(blocks) >= b and all(all(v < 0 for v in blk) for blk in blocks[:b])
+    cases = []
+    while len(cases) < n:
+        b, recs, blocks, sched = gen_schain(rng)
+        if all_empty_prefix(b, blocks):
+            continue
+        cases.append((b, recs, blocks, random_sched(rng, 4, len(sched))))
+    demos = [(1, 2, [[-1, -2], [3]], []), (2, 2, [[-1], [-2], [3]], [])]
+    allc = cases + demos
+    lines = [schain_line(c).replace("schain", "smain", 1) for c in allc]
+    ho = run_harness(hexe, lines)
+    for i, c in enumerate(allc):
+        ctx.count(("smain", lines[i]), nontrivial=len(c[2]) >= 2)
+        want = [v for blk in c[2] for v in blk if v > 0]
+        okline = " END ok F " in ho[i]
+        if not okline:
+            if all_empty_prefix(c[0], c[2]) and "END deadlock" in ho[i]:
+                ctx.violation("stream attached in the calling thread: chain never terminates when the first block_count "
+                              "blocks are empty", {"stream": "smain", "op": lines[i], "impl": ho[i][-600:]}, key=KEY_SMAIN)
+                continue
+            ctx.violation("stream (attached in the calling thread): the chain did not finish / the harness died: "
+                          + ho[i][-300:], {"stream": "smain", "op": lines[i], "impl": ho[i][-3000:]})
+            return True
+        got = ho[i].split(" END ok F ")[1].strip()
+        got = [int(x) for x in got.split(":", 1)[1].split(",") if x != ""] if ":" in got else []
+        if got != want:
+            ctx.violation("stream (attached in the calling thread): records yielded differ from the concatenation of the "
+                          "valid records of the blocks", {"stream": "smain", "op": lines[i], "impl_records": got,
+                                                          "expected": want})
+            return True
+    return False
+
+
 def pool_chain_streams(ctx, hexe, dexe, problems):
     quick = ctx.tier == "quick"
     rng = ctx.rng
@@ -517,6 +560,7 @@ def pool_chain_streams(ctx, hexe, dexe, problems):
         found = schain_batch(ctx, hexe, dexe, cases[i:i + 300]) or found
         if found:
             return found
+    found = smain_batch(ctx, hexe, 25 if quick else 300) or found
     return found
 
 
